@@ -1,4 +1,5 @@
 import Driver.Core
+import Driver.Order
 /-! `modeldriver <stream>`: reads a trace on stdin, replays it on the model, prints DIFF / SPEC lines
 and a final `SUMMARY` line with the counts of comparisons and predicate evaluations. -/
 open Driver
@@ -11,11 +12,26 @@ partial def coreLoop (h : IO.FS.Stream) (s : St) : IO St := do
   for m in s.out do IO.println m
   coreLoop h { s with out := #[] }
 
+partial def orderLoop (h : IO.FS.Stream) (s : OSt) : IO OSt := do
+  let line ← h.getLine
+  if line.isEmpty then return s
+  let line := if line.back == '\n' then (line.dropEnd 1).toString else line
+  let s := handleOrder s line
+  for m in s.out do IO.println m
+  orderLoop h { s with out := #[] }
+
 def main (args : List String) : IO UInt32 := do
   let stdin ← IO.getStdin
   match args with
   | ["core"] =>
     let s ← coreLoop stdin {}
+    let cs := s.checks.toList.map (fun (k, v) => s!"{k}={v}")
+    IO.println s!"SUMMARY lines={s.lineNo} diffs={s.diffs} specfails={s.specFails} {" ".intercalate cs}"
+    return 0
+  | ["order"] =>
+    let s ← orderLoop stdin {}
+    let s := finishOrder s
+    for m in s.out do IO.println m
     let cs := s.checks.toList.map (fun (k, v) => s!"{k}={v}")
     IO.println s!"SUMMARY lines={s.lineNo} diffs={s.diffs} specfails={s.specFails} {" ".intercalate cs}"
     return 0
